@@ -200,6 +200,38 @@ pub fn run_case(c: &Case) -> (String, String, Option<String>) {
     (impl_s, spec_s, fail)
 }
 
+
+/// Oracle-only soak: tens of millions of slides of a constant window (far beyond what the model run can replay);
+/// returns the first slide index at which a digest differs from the definition.
+fn soak(winlen: usize, byte: u8, rolls: u64) -> Option<(u64, String)> {
+    let w = vec![byte; winlen];
+    let mut ex = Exact::new(&w);
+    let r = catch(move || {
+        let mut rc = RollingChecksum::new(&w);
+        let mut frc = FastRollingChecksum::new(&w);
+        for i in 1..=rolls {
+            ex.roll(byte);
+            rc.roll(byte, byte);
+            frc.roll(byte, byte);
+            // the window is constant, so the definition's digest is constant too
+            if i % 4096 == 0 || i == rolls || i < 16 {
+                let sd = ex.digest();
+                if rc.digest() != sd {
+                    return Some((i, format!("RollingChecksum impl={:08x} spec={:08x}", rc.digest(), sd)));
+                }
+                if frc.digest() != sd {
+                    return Some((i, format!("FastRollingChecksum impl={:08x} spec={:08x}", frc.digest(), sd)));
+                }
+            }
+        }
+        None
+    });
+    match r {
+        Ok(x) => x,
+        Err(m) => Some((0, format!("panic {}", m))),
+    }
+}
+
 pub fn generate(seed: u64, tier: &str) -> Vec<Case> {
     let mut r = Rng::new(seed ^ 0xC17);
     let thorough = tier == "thorough";
@@ -303,6 +335,17 @@ pub fn main(a: Args) -> i32 {
         if let Some(f) = f {
             nfail += 1;
             out.line("specfail.txt", &f);
+        }
+    }
+    if a.replay.is_none() {
+        let rolls: u64 = if a.tier == "thorough" { 400_000_000 } else { 60_000_000 };
+        for (k, (wl, b)) in [(65536usize, 0xFFu8), (1usize, 0xFFu8), (4096usize, 0x01u8)].iter().enumerate() {
+            out.line("soak.txt", &format!("soak{} window={}x{:02x} slides={}", k, wl, b, rolls));
+            out.add("soak_slides", rolls);
+            if let Some((i, what)) = soak(*wl, *b, rolls) {
+                nfail += 1;
+                out.line("specfail.txt", &format!("soak{} {} {} (window of {} bytes {:#04x}, roll({:#04x},{:#04x}) repeated; first checked failure at slide {})", k, i, what, wl, b, b, b, i));
+            }
         }
     }
     out.add("spec_failures", nfail);
